@@ -321,6 +321,17 @@ Fixpoint all_same (l : list (list ent)) : bool :=
   | _ => true
   end.
 
+(* "every entry involved in a clash is moved to the conflict state": in the dump taken after a replication, no
+   live entry may hold a unique value of an entry that THIS transaction moved to the conflict state
+   (class change id = the transaction's change id; conflict copies, which keep no name, are not concerned) *)
+Definition both_sides (o : op) (snap : list ent) : bool :=
+  match o with
+  | ORepl to _ ct _ =>
+      forallb (fun x => negb ((cls x =? 2) && cid_eqb (cls_c x) (ct, to) && (0 <? name x))
+                        || forallb (fun y => negb (live y && share x y)) snap) snap
+  | _ => true
+  end.
+
 Definition pcheck (c : case) : bool :=
   match c with
   | CHist _ steps full final =>
@@ -329,6 +340,7 @@ Definition pcheck (c : case) : bool :=
       && forallb (fun d => uniqb d) final              (* tracked entries incl. their uuids *)
       && all_same final                                (* at quiescence every replica holds the same entries,
                                                           conflict state included *)
+      && forallb (fun x => match x with Obs o _ snap _ => both_sides o snap end) steps
   end.
 
 Definition known (_ : case) : bool := false.
